@@ -685,6 +685,18 @@ def concrete_attr(it, py, name):
     if isinstance(py, re.Pattern) and name in ('match', 'sub', 'fullmatch'):
         return VFunc(lambda it, a, k: pattern_call(it, py, name, a, k),
                      'Pattern.' + name)
+    if isinstance(py, tuple) and py and py[0] == 'super-exc' and \
+            name == '__init__':
+        target = py[1]
+
+        def exc_init(it, a, k, target=target):
+            # BaseException.__init__(self, *args): stores args
+            if isinstance(target, VRef):
+                it.ctx.cell(target).attrs['args'] = VTuple(list(a))
+            else:
+                target.attrs['args'] = VTuple(list(a))
+            return VNone
+        return VFunc(exc_init, 'Exception.__init__')
     if isinstance(py, tuple) and py and py[0] == 'typeof' and \
             name == '__name__':
         return VStr(it.ctx.fresh_str('typename'), False)
@@ -780,6 +792,11 @@ def call_concrete(it, py, args, kwargs):
     if py is iter:
         return args[0]
     if py is super:
+        # super(Cls, self) - only used to reach Exception.__init__
+        if len(args) == 2 and isinstance(args[0], VConc) and \
+                isinstance(args[0].py, type) and \
+                issubclass(args[0].py, BaseException):
+            return VConc(('super-exc', args[1]))
         raise Unsupported('super()')
     if py is getattr:
         name = const_key(args[1])
